@@ -226,7 +226,7 @@ func ruleEmissionLiterals(c *core.Ctx, rule string) {
 			// loops of helpers that were folded in: the entry loop is the one bounded by nextRef
 			var own []*core.V
 			for _, h := range heads {
-				if h.Cond.Expr != nil && mentionsFieldVia(g, h, h.Cond.Expr, "nextRef") {
+				if loopBound(g, h) != nil && mentionsFieldVia(g, h, loopBound(g, h), "nextRef") {
 					own = append(own, h)
 				}
 			}
@@ -237,7 +237,7 @@ func ruleEmissionLiterals(c *core.Ctx, rule string) {
 		}
 		o.At(fn.Site(heads[0].AST, "entry loop"))
 		// loop bound mentions nextRef
-		o.Require(heads[0].Cond.Expr != nil && mentionsFieldVia(g, heads[0], heads[0].Cond.Expr, "nextRef"), "the entry loop is not bounded by nextRef")
+		o.Require(loopBound(g, heads[0]) != nil && mentionsFieldVia(g, heads[0], loopBound(g, heads[0]), "nextRef"), "the entry loop is not bounded by nextRef")
 		// header count is nextRef too
 		headerSeen := false
 		for _, l := range literalsWritten(fn) {
@@ -449,7 +449,18 @@ func ruleOffsetCapture(c *core.Ctx, rule string) {
 			}
 			sx := cvs[0]
 			o.At(fn.Site(sx.Call, "setXRef"))
-			fields := compositeFields(info, sx.Call.Args[1])
+			entryExpr := sx.Call.Args[1]
+			if _, isID := ast.Unparen(entryExpr).(*ast.Ident); isID {
+				// entry := &xRefEntry{...}; w.setXRef(ref, entry)
+				if vc := valueCases(g, sx.V, entryExpr, 1); len(vc) == 1 && vc[0].V != nil && vc[0].V != sx.V {
+					entryExpr = vc[0].Expr
+				}
+			}
+			fields := compositeFields(info, entryExpr)
+			if len(fields) == 0 {
+				o.Unrec("the entry handed to setXRef (%s) is not a literal here: its fields are not followed", core.ExprStr(sx.Call.Args[1]))
+				return
+			}
 			if fields["Pos"] == nil || !isPosSel(info, fields["Pos"]) {
 				o.Fail("xref entry Pos is %s, want the current writer position", core.ExprStr(fields["Pos"]))
 			}
@@ -1020,7 +1031,11 @@ func ruleXRefStreamRows(c *core.Ctx, rule string) {
 				}
 			}
 		}
-		o.Require(strings.Contains(core.ExprStr(head.Cond.Expr)+" "+resolveText(g, head, head.Cond.Expr, 3), "nextRef"), "the row loop is not bounded by nextRef")
+		if lb := loopBound(g, head); lb == nil {
+			o.Unrec("the bound of the row loop was not found")
+		} else {
+			o.Require(strings.Contains(core.ExprStr(lb)+" "+resolveText(g, head, lb, 3), "nextRef"), "the row loop is not bounded by nextRef")
+		}
 	})
 	c.Check(rule, "pdf.(*Writer).writeXRefStream/dict", "/W is [1 w2 w3], the predictor's Columns is 1+w2+w3, and /Type /Size /W /Filter /DecodeParms /Length (direct) are set before the stream is opened", func(o *core.Ob) {
 		keys := core.DictKeysWritten(info, fn.Decl, "pdf", "Dict")
@@ -1066,7 +1081,12 @@ func ruleXRefStreamRows(c *core.Ctx, rule string) {
 				t := info.TypeOf(x)
 				if t != nil && core.IsNamed(t, "pdf", "Array") && len(x.Elts) == 3 {
 					s := []string{core.ExprStr(x.Elts[0]), core.ExprStr(x.Elts[1]), core.ExprStr(x.Elts[2])}
+					ww2, ww3 := xrefWidthVars(fn)
+					k0, isK0 := core.IntConst(info, x.Elts[0])
 					if s[0] == "Integer(1)" && s[1] == "Integer(w2)" && s[2] == "Integer(w3)" {
+						okW = true
+					} else if isK0 && k0 == 1 && ww2 != nil && ww3 != nil && core.ObjOf(info, peelConv(info, x.Elts[1])) == ww2 && core.ObjOf(info, peelConv(info, x.Elts[2])) == ww3 {
+						// the same by identity: the widths the rows are written with
 						okW = true
 					} else {
 						o.Fail("/W is %v, want [1 w2 w3]", s)
@@ -1076,7 +1096,37 @@ func ruleXRefStreamRows(c *core.Ctx, rule string) {
 					f := compositeFields(info, x)
 					if f["Columns"] != nil {
 						s := strings.ReplaceAll(core.ExprStr(f["Columns"]), " ", "")
-						if s == "1+w2+w3" || s == "w2+w3+1" || s == "1+w3+w2" {
+						sumOK := false
+						if ww2, ww3 := xrefWidthVars(fn); ww2 != nil && ww3 != nil {
+							// a sum of exactly the constant 1 and the two widths, in any order
+							var terms []ast.Expr
+							var flat func(e ast.Expr) bool
+							flat = func(e ast.Expr) bool {
+								e = ast.Unparen(e)
+								if be, isBin := e.(*ast.BinaryExpr); isBin {
+									if be.Op != token.ADD {
+										return false
+									}
+									return flat(be.X) && flat(be.Y)
+								}
+								terms = append(terms, e)
+								return true
+							}
+							if flat(f["Columns"]) && len(terms) == 3 {
+								n1, n2, n3 := 0, 0, 0
+								for _, t := range terms {
+									if k, isK := core.IntConst(info, t); isK && k == 1 {
+										n1++
+									} else if core.ObjOf(info, peelConv(info, t)) == ww2 {
+										n2++
+									} else if core.ObjOf(info, peelConv(info, t)) == ww3 {
+										n3++
+									}
+								}
+								sumOK = n1 == 1 && n2 == 1 && n3 == 1
+							}
+						}
+						if s == "1+w2+w3" || s == "w2+w3+1" || s == "1+w3+w2" || sumOK {
 							okCols = true
 						} else {
 							o.Fail("predictor Columns is %s, want 1+w2+w3", s)
@@ -1100,30 +1150,73 @@ func ruleXRefStreamRows(c *core.Ctx, rule string) {
 			core.Undecided("expected one loop")
 		}
 		o.At(f.Site(hs[0].AST, "byte loop"))
-		fs, ok := hs[0].Block.Stmt.(*ast.ForStmt)
-		if !ok {
-			core.Undecided("not a for loop")
+		var loopBody *ast.BlockStmt
+		up, down := false, false
+		if hs[0].Cond != nil && hs[0].Cond.Range != nil {
+			// for i := range w
+			rs := hs[0].Cond.Range
+			if id, isID := ast.Unparen(rs.X).(*ast.Ident); isID && id.Name == "w" && rs.Key != nil && core.ExprStr(rs.Key) == "i" && rs.Value == nil {
+				up, loopBody = true, rs.Body
+			}
+		} else if fs, ok := hs[0].Block.Stmt.(*ast.ForStmt); ok && fs.Cond != nil {
+			init, post := "", ""
+			if ia, isA := fs.Init.(*ast.AssignStmt); isA && len(ia.Rhs) == 1 {
+				init = core.ExprStr(ia.Rhs[0])
+			}
+			cond := core.ExprStr(fs.Cond)
+			if p, ok := fs.Post.(*ast.IncDecStmt); ok {
+				post = p.Tok.String()
+			}
+			up = strings.ReplaceAll(init, " ", "") == "0" && (strings.ReplaceAll(cond, " ", "") == "i<w") && post == "++"
+			down = strings.ReplaceAll(init, " ", "") == "w-1" && (strings.ReplaceAll(cond, " ", "") == "i>=0") && post == "--"
+			loopBody = fs.Body
 		}
-		init := core.ExprStr(fs.Init.(*ast.AssignStmt).Rhs[0])
-		cond := core.ExprStr(fs.Cond)
-		post := ""
-		if p, ok := fs.Post.(*ast.IncDecStmt); ok {
-			post = p.Tok.String()
-		}
-		up := strings.ReplaceAll(init, " ", "") == "0" && (strings.ReplaceAll(cond, " ", "") == "i<w") && post == "++"
-		down := strings.ReplaceAll(init, " ", "") == "w-1" && (strings.ReplaceAll(cond, " ", "") == "i>=0") && post == "--"
-		if !up && !down {
-			o.Unrec("byte loop is (%s; %s; %s): neither of the two known forms (0..w-1 up, w-1..0 down); what it writes is not decided", init, cond, post)
+		if !up && !down || loopBody == nil {
+			o.Unrec("the byte loop has neither of the known forms (0..w-1 up, w-1..0 down, range w); what it writes is not decided")
 			return
 		}
 		wb := 0
 		shiftOK := false
-		ast.Inspect(fs.Body, func(n ast.Node) bool {
+		ast.Inspect(loopBody, func(n ast.Node) bool {
 			if call, ok := n.(*ast.CallExpr); ok && strings.HasSuffix(core.CalleeKey(f.Info(), call), ".WriteByte") {
 				wb++
 				s := strings.ReplaceAll(core.ExprStr(call.Args[0]), " ", "")
 				if down && strings.Contains(s, ">>(8*i)") || up && strings.Contains(s, ">>(8*(w-1-i))") || down && strings.Contains(s, ">>(i*8)") {
 					shiftOK = true
+				}
+				// the same by value: the shift amount is 8*i counting down, 8*(w-1-i) counting up
+				if !shiftOK {
+					ast.Inspect(call.Args[0], func(m ast.Node) bool {
+						be, isBin := m.(*ast.BinaryExpr)
+						if !isBin || be.Op != token.SHR {
+							return true
+						}
+						var is, ws []int64
+						for k := int64(0); k < 8; k++ {
+							is = append(is, k)
+							ws = append(ws, k+1)
+						}
+						good, n := true, 0
+						dec, _ := c.Prog.Tabulate(f, be.Y, nil, map[string][]int64{"i": is, "w": ws}, func(env map[string]int64, v int64, _ bool) {
+							iv, _ := core.EnvGet(env, "i")
+							wv, hasW := core.EnvGet(env, "w")
+							if hasW && iv >= wv || !hasW && up {
+								return
+							}
+							n++
+							want := 8 * iv
+							if up {
+								want = 8 * (wv - 1 - iv)
+							}
+							if v != want {
+								good = false
+							}
+						})
+						if dec && good && n > 0 {
+							shiftOK = true
+						}
+						return false
+					})
 				}
 			}
 			return true
@@ -1363,8 +1456,67 @@ func ruleObjStmHeader(c *core.Ctx, rule string) {
 				gen = true
 			}
 		}
-		o.Require(stream, "streams are not rejected")
-		o.Require(ref, "references are not rejected")
+		// the same by structure: a type test (comma-ok assertion or type-switch case) whose
+		// success leads to nothing but the return of an error
+		rejectsOnly := func(body *ast.BlockStmt) bool {
+			if body == nil || len(body.List) == 0 {
+				return false
+			}
+			rs, ok := body.List[len(body.List)-1].(*ast.ReturnStmt)
+			return ok && len(rs.Results) == 1 && !core.IsNil(inf, rs.Results[0])
+		}
+		typeTests := 0
+		note := func(t types.Type) {
+			if t == nil {
+				return
+			}
+			if pt, isPtr := t.(*types.Pointer); isPtr && core.IsNamed(pt.Elem(), "pdf", "Stream") {
+				stream = true
+			}
+			if core.IsNamed(t, "pdf", "Reference") {
+				ref = true
+			}
+		}
+		okVars := map[types.Object]types.Type{}
+		ast.Inspect(f.Decl.Body, func(n ast.Node) bool {
+			switch x := n.(type) {
+			case *ast.TypeSwitchStmt:
+				typeTests++
+				for _, st := range x.Body.List {
+					cc := st.(*ast.CaseClause)
+					if cc.List == nil || !rejectsOnly(&ast.BlockStmt{List: cc.Body}) {
+						continue
+					}
+					for _, te := range cc.List {
+						note(inf.TypeOf(te))
+					}
+				}
+			case *ast.AssignStmt:
+				if len(x.Lhs) == 2 && len(x.Rhs) == 1 {
+					if ta, isTA := ast.Unparen(x.Rhs[0]).(*ast.TypeAssertExpr); isTA && ta.Type != nil {
+						typeTests++
+						if obj := core.ObjOf(inf, x.Lhs[1]); obj != nil {
+							okVars[obj] = inf.TypeOf(ta.Type)
+						}
+					}
+				}
+			}
+			return true
+		})
+		ast.Inspect(f.Decl.Body, func(n ast.Node) bool {
+			if is, ok := n.(*ast.IfStmt); ok && rejectsOnly(is.Body) {
+				if t, has := okVars[core.ObjOf(inf, is.Cond)]; has {
+					note(t)
+				}
+			}
+			return true
+		})
+		if (!stream || !ref) && typeTests == 0 {
+			o.Unrec("checkCompressed makes no type test of the objects itself (a helper?): which kinds of object it rejects is not decided")
+		} else {
+			o.Require(stream, "streams are not rejected")
+			o.Require(ref, "references are not rejected")
+		}
 		o.Require(gen, "non-zero generations are not rejected")
 	})
 }
@@ -1423,14 +1575,14 @@ func ruleInStreamGuards(c *core.Ctx, rule string) {
 		n := 0
 		for _, v := range g.Vs {
 			as, ok := v.AST.(*ast.AssignStmt)
-			if !ok || len(as.Lhs) != len(as.Rhs) {
+			if !ok {
 				continue
 			}
-			for i, l := range as.Lhs {
-				if _, ok := core.FieldSel(info, l, "pdf", "Writer", "inStream"); !ok {
-					continue
+			for i := range as.Lhs {
+				if i > 0 {
+					break
 				}
-				if cv := core.ConstOf(info, as.Rhs[i]); cv == nil || cv.Kind() != constant.Bool || constant.BoolVal(cv) {
+				if val, ok := inStreamStore(info, as); !ok || val {
 					continue
 				}
 				n++
@@ -1472,28 +1624,37 @@ func ruleInStreamGuards(c *core.Ctx, rule string) {
 			g := fn.Graph()
 			info := fn.Info()
 			var guard *core.V
+			openOn := core.EdgeTrue
 			for _, bv := range g.BranchVertices() {
 				if bv.Cond.Expr == nil {
 					continue
 				}
-				if _, ok := core.FieldSel(info, bv.Cond.Expr, "pdf", "Writer", "inStream"); ok {
-					guard = bv
+				if on, ok := inStreamTest(info, bv.Cond.Expr); ok {
+					guard, openOn = bv, on
 				}
 			}
 			if guard == nil {
 				o.Count(1)
+				if !inStreamKnown(c) {
+					o.Unrec("the open-stream state is neither the boolean field Writer.inStream nor a bit named ...InStream: the test of %s is not located", e.name)
+					return
+				}
 				o.Fail("%s does not test inStream", e.name)
 				return
+			}
+			notOpen := core.EdgeFalse
+			if openOn == core.EdgeFalse {
+				notOpen = core.EdgeTrue
 			}
 			o.At(fn.Site(guard.AST, "inStream test"))
 			// every write / state change is on the false edge
 			for _, w := range posWriterWrites(g) {
-				if !g.EdgeDominates(w, core.EdgeRef{From: guard, Label: core.EdgeFalse}) {
+				if !g.EdgeDominates(w, core.EdgeRef{From: guard, Label: notOpen}) {
 					o.FailAt(fn.Site(w.AST, ""), "reachable while a stream is open")
 				}
 			}
 			for _, sx := range callVertices(g, "pdf.(*Writer).setXRef", "pdf.(*Writer).Alloc") {
-				if !g.EdgeDominates(sx.V, core.EdgeRef{From: guard, Label: core.EdgeFalse}) {
+				if !g.EdgeDominates(sx.V, core.EdgeRef{From: guard, Label: notOpen}) {
 					o.FailAt(fn.Site(sx.Call, ""), "xref state is modified while a stream is open")
 				}
 			}
@@ -1505,7 +1666,7 @@ func ruleInStreamGuards(c *core.Ctx, rule string) {
 						if _, ok := core.FieldSel(info, l, "pdf", "posWriter", "ref"); ok {
 							o.At(fn.Site(as, "current object reference"))
 							refStores = append(refStores, v)
-							if !g.EdgeDominates(v, core.EdgeRef{From: guard, Label: core.EdgeFalse}) {
+							if !g.EdgeDominates(v, core.EdgeRef{From: guard, Label: notOpen}) {
 								o.FailAt(fn.Site(as, ""), "the writer's current object reference is changed while a stream is open (its dictionary would be encrypted under the wrong key)")
 							}
 						}
@@ -1534,8 +1695,8 @@ func ruleInStreamGuards(c *core.Ctx, rule string) {
 					}
 				}
 			}
-			tv := succ(guard, core.EdgeTrue)
-			reach := g.ReachFrom(tv, true, core.AvoidVs(succ(guard, core.EdgeFalse)))
+			tv := succ(guard, openOn)
+			reach := g.ReachFrom(tv, true, core.AvoidVs(succ(guard, notOpen)))
 			if e.mode == "defer" {
 				ok := false
 				for v := range reach {
@@ -1563,13 +1724,16 @@ func ruleInStreamGuards(c *core.Ctx, rule string) {
 		var set *core.V
 		for _, v := range g.Vs {
 			if as, ok := v.AST.(*ast.AssignStmt); ok {
-				if _, ok := core.FieldSel(info, as.Lhs[0], "pdf", "Writer", "inStream"); ok {
-					if cv := core.ConstOf(info, as.Rhs[0]); cv != nil && cv.String() == "true" {
-						set = v
-						o.At(fn.Site(as, "inStream = true"))
-					}
+				if val, ok := inStreamStore(info, as); ok && val {
+					set = v
+					o.At(fn.Site(as, "inStream = true"))
 				}
 			}
+		}
+		if set == nil && !inStreamKnown(c) {
+			o.Count(1)
+			o.Unrec("the open-stream state is neither the boolean field Writer.inStream nor a bit named ...InStream: its protocol is not located")
+			return
 		}
 		if set == nil {
 			o.Count(1)
@@ -1589,11 +1753,9 @@ func ruleInStreamGuards(c *core.Ctx, rule string) {
 		var clr *core.V
 		for _, v := range cg.Vs {
 			if as, ok := v.AST.(*ast.AssignStmt); ok {
-				if _, ok := core.FieldSel(cl.Info(), as.Lhs[0], "pdf", "Writer", "inStream"); ok {
-					if cv := core.ConstOf(cl.Info(), as.Rhs[0]); cv != nil && cv.String() == "false" {
-						clr = v
-						o.At(cl.Site(as, "inStream = false"))
-					}
+				if val, ok := inStreamStore(cl.Info(), as); ok && !val {
+					clr = v
+					o.At(cl.Site(as, "inStream = false"))
 				}
 			}
 		}
@@ -3065,4 +3227,104 @@ func usesBefore(g *core.Graph, at *core.V, id *ast.Ident) []vcase {
 		out = append(out, vcase{rhs, d})
 	}
 	return out
+}
+
+// The writer's "a stream is open" state is the boolean field Writer.inStream,
+// or one bit of an integer field of Writer named by a constant whose name
+// contains "instream" (w.flags&flagInStream != 0, w.flags |= flagInStream,
+// w.flags &^= flagInStream).
+
+// inStreamBit reports whether e is such a constant.
+func inStreamBit(info *types.Info, e ast.Expr) bool {
+	c, ok := core.ObjOf(info, e).(*types.Const)
+	return ok && strings.Contains(strings.ToLower(c.Name()), "instream")
+}
+
+// inStreamTest: e tests the state; openOn is the edge on which a stream is open.
+func inStreamTest(info *types.Info, e ast.Expr) (openOn core.EdgeLabel, ok bool) {
+	e = ast.Unparen(e)
+	if _, isF := core.FieldSel(info, e, "pdf", "Writer", "inStream"); isF {
+		return core.EdgeTrue, true
+	}
+	be, isBin := e.(*ast.BinaryExpr)
+	if !isBin || be.Op != token.NEQ && be.Op != token.EQL {
+		return core.EdgeTrue, false
+	}
+	for _, pr := range [][2]ast.Expr{{be.X, be.Y}, {be.Y, be.X}} {
+		and, isAnd := ast.Unparen(pr[0]).(*ast.BinaryExpr)
+		if !isAnd || and.Op != token.AND {
+			continue
+		}
+		if !inStreamBit(info, and.X) && !inStreamBit(info, and.Y) {
+			continue
+		}
+		// compared with 0 (bit clear) or with the bit itself (bit set)
+		if k, isK := core.IntConst(info, pr[1]); isK && k == 0 {
+			if be.Op == token.NEQ {
+				return core.EdgeTrue, true
+			}
+			return core.EdgeFalse, true
+		}
+		if inStreamBit(info, pr[1]) {
+			if be.Op == token.EQL {
+				return core.EdgeTrue, true
+			}
+			return core.EdgeFalse, true
+		}
+	}
+	return core.EdgeTrue, false
+}
+
+// inStreamStore: the statement sets (val true) or clears (val false) the state.
+func inStreamStore(info *types.Info, as *ast.AssignStmt) (val bool, ok bool) {
+	if len(as.Lhs) != 1 || len(as.Rhs) != 1 {
+		// w.a, w.inStream = x, false
+		for i, l := range as.Lhs {
+			if _, isF := core.FieldSel(info, l, "pdf", "Writer", "inStream"); isF && i < len(as.Rhs) && len(as.Lhs) == len(as.Rhs) {
+				if cv := core.ConstOf(info, as.Rhs[i]); cv != nil && cv.Kind() == constant.Bool {
+					return constant.BoolVal(cv), true
+				}
+			}
+		}
+		return false, false
+	}
+	if _, isF := core.FieldSel(info, as.Lhs[0], "pdf", "Writer", "inStream"); isF && as.Tok == token.ASSIGN {
+		if cv := core.ConstOf(info, as.Rhs[0]); cv != nil && cv.Kind() == constant.Bool {
+			return constant.BoolVal(cv), true
+		}
+		return false, false
+	}
+	if !inStreamBit(info, as.Rhs[0]) {
+		return false, false
+	}
+	switch as.Tok {
+	case token.OR_ASSIGN:
+		return true, true
+	case token.AND_NOT_ASSIGN:
+		return false, true
+	}
+	return false, false
+}
+
+// inStreamKnown: the package keeps the state in one of the two recognised forms.
+func inStreamKnown(c *core.Ctx) bool {
+	for _, name := range []string{"(*Writer).OpenStream", "(*streamWriter).Close"} {
+		fn := c.Prog.FuncOpt("pdf", name)
+		if fn == nil {
+			continue
+		}
+		found := false
+		ast.Inspect(fn.Decl.Body, func(n ast.Node) bool {
+			if as, ok := n.(*ast.AssignStmt); ok {
+				if _, ok := inStreamStore(fn.Info(), as); ok {
+					found = true
+				}
+			}
+			return !found
+		})
+		if found {
+			return true
+		}
+	}
+	return false
 }
